@@ -555,16 +555,23 @@ func c13Clone(tier string, idx int, r *Result) {
 	t := s.types[idx]
 	vals := s.valuesOf(t)
 	ops := allMutOps()
-	tags := []string{"lib:vm", "type:" + t.String()}
 	reported := map[string]bool{}
 	fail := func(class string, v *mval, seq []string, detail string) {
-		key := class + strings.Join(seq, ",")
+		// one report per class and kind of the (last) mutation; the case text has the sequence
+		mk := "mut:none"
+		if len(seq) > 0 {
+			mk = "mut:" + seq[len(seq)-1]
+			if i := strings.Index(mk, ":"); len(seq) == 1 && i >= 0 {
+				mk = "mut:" + strings.SplitN(seq[0], ":", 2)[1]
+			}
+		}
+		key := class + mk
 		if reported[key] {
 			r.Note("further-values-of-a-reported-class", 1)
 			return
 		}
 		reported[key] = true
-		capFail(r, class, append(append([]string{}, tags...), "mut:"+strings.Join(seq, ",")), fmt.Sprintf("runtime/value: type %s, v = %s, c = v.Clone(), mutations %v", t, v, seq), detail)
+		capFail(r, class, []string{"lib:vm", "kind:" + typeKindTag(t), mk}, fmt.Sprintf("runtime/value: type %s, v = %s, c = v.Clone(), mutations %v", t, v, seq), detail)
 	}
 	r.Sample(fmt.Sprintf("Clone + mutation sequences on all %d values of type %s", len(vals), t))
 	nseq := 0
@@ -970,9 +977,19 @@ func firstRangeOrKind(v *mval) string {
 type progBuilder struct {
 	pre []string
 	n   int
+	top bool // the next expression stands directly under a type annotation
 }
 
 func (b *progBuilder) expr(v *mval, t *mtype) string {
+	if v.K == mList && len(v.Elems) == 0 && t != nil && t.K == tList && !b.top {
+		// an empty list literal has no element type of its own: the analyzer only accepts it
+		// directly under an annotation
+		b.n++
+		name := fmt.Sprintf("e%d", b.n)
+		b.pre = append(b.pre, fmt.Sprintf("let %s: %s = [];", name, t))
+		return name
+	}
+	b.top = false
 	switch v.K {
 	case mAnyObj:
 		b.n++
@@ -1017,6 +1034,7 @@ func (b *progBuilder) expr(v *mval, t *mtype) string {
 }
 
 func bindStmt(name string, v *mval, t *mtype, b *progBuilder) string {
+	b.top = true
 	return fmt.Sprintf("let %s: %s = %s;", name, t, b.expr(v, t))
 }
 
